@@ -775,4 +775,208 @@ Proof.
     destruct (crecv_upd_h _ _ _ hid o E Hno) as [E' Hno']. rewrite E'. apply IH; assumption.
 Qed.
 
+Lemma deliver_pclose x hid ok f : deliver (x <| k_pclose ::= f |>) hid ok = deliver x hid ok <| k_pclose ::= f |>.
+Proof. destruct x as [es er pc pk hs]. unfold deliver. cbn. destruct (hs !! hid) as [[? [| | |]]|]; reflexivity. Qed.
+Lemma deliver_pclaim x hid ok f : deliver (x <| k_pclaim ::= f |>) hid ok = deliver x hid ok <| k_pclaim ::= f |>.
+Proof. destruct x as [es er pc pk hs]. unfold deliver. cbn. destruct (hs !! hid) as [[? [| | |]]|]; reflexivity. Qed.
+Lemma deliver_fields x hid ok :
+  k_pclose (deliver x hid ok) = k_pclose x /\ k_pclaim (deliver x hid ok) = k_pclaim x /\
+  k_es (deliver x hid ok) = k_es x /\ k_er (deliver x hid ok) = k_er x.
+Proof. destruct x as [es er pc pk hs]. unfold deliver. cbn. destruct (hs !! hid) as [[? [| | |]]|]; repeat split. Qed.
+
+Lemma crecv_ins_pclose x m x' s p :
+  crecv fl x m = ROk x' -> k_pclose x !! s = None ->
+  crecv fl (x <| k_pclose ::= <[s := p]> |>) m = ROk (x' <| k_pclose ::= <[s := p]> |>) /\ k_pclose x' !! s = None.
+Proof.
+  intros H Hs. destruct m; cbn in H; try discriminate.
+  - destruct x as [es er pc pk hs]. cbn in *.
+    destruct (pc !! serial) as [[e claimed]|] eqn:E; cbn in H; [|discriminate].
+    assert (serial <> s) by (intros ->; congruence).
+    rewrite lookup_insert_ne by congruence. rewrite E. cbn.
+    destruct claimed; cbn in H |- *.
+    + destruct e; cbn in H |- *.
+      * destruct es; cbn in H |- *; [|destruct (fl_close_asserts fl); [discriminate|]]; inversion H; subst; cbn;
+          (split; [unfold set; cbn; rewrite delete_insert_ne by congruence; reflexivity|rewrite lookup_delete_ne by congruence; exact Hs]).
+      * destruct er; cbn in H |- *; [|destruct (fl_close_asserts fl); [discriminate|]]; inversion H; subst; cbn;
+          (split; [unfold set; cbn; rewrite delete_insert_ne by congruence; reflexivity|rewrite lookup_delete_ne by congruence; exact Hs]).
+    + inversion H; subst; cbn.
+      split; [unfold set; cbn; rewrite delete_insert_ne by congruence; reflexivity|rewrite lookup_delete_ne by congruence; exact Hs].
+  - destruct x as [es er pc pk hs]. destruct e; cbn in *.
+    + destruct er as [[]|]; try discriminate; inversion H; subst; (split; [reflexivity|exact Hs]).
+    + destruct es as [[]|]; try discriminate; inversion H; subst; (split; [reflexivity|exact Hs]).
+  - destruct (k_pclaim x !! serial) as [[e hid0]|] eqn:E; cbn in H; [|discriminate].
+    cbn. rewrite E. cbn.
+    destruct e, r; cbn in H |- *; try discriminate.
+    + destruct (k_es x) eqn:Ee; [discriminate|]. inversion H; subst x'. split.
+      * rewrite <- deliver_pclose. destruct x; reflexivity.
+      * destruct (deliver_fields (x <| k_pclaim ::= delete serial |> <| k_es := Some EEstablished |>) hid0 true) as (F & _). rewrite F. destruct x; exact Hs.
+    + inversion H; subst x'. split; [rewrite <- deliver_pclose; destruct x; reflexivity|].
+      destruct (deliver_fields (x <| k_pclaim ::= delete serial |>) hid0 false) as (F & _). rewrite F. destruct x; exact Hs.
+    + inversion H; subst x'. split; [rewrite <- deliver_pclose; destruct x; reflexivity|].
+      destruct (deliver_fields (x <| k_pclaim ::= delete serial |>) hid0 false) as (F & _). rewrite F. destruct x; exact Hs.
+    + destruct (k_er x) eqn:Ee; [discriminate|]. inversion H; subst x'. split.
+      * rewrite <- deliver_pclose. destruct x; reflexivity.
+      * destruct (deliver_fields (x <| k_pclaim ::= delete serial |> <| k_er := Some EEstablished |>) hid0 true) as (F & _). rewrite F. destruct x; exact Hs.
+    + inversion H; subst x'. split; [rewrite <- deliver_pclose; destruct x; reflexivity|].
+      destruct (deliver_fields (x <| k_pclaim ::= delete serial |>) hid0 false) as (F & _). rewrite F. destruct x; exact Hs.
+    + inversion H; subst x'. split; [rewrite <- deliver_pclose; destruct x; reflexivity|].
+      destruct (deliver_fields (x <| k_pclaim ::= delete serial |>) hid0 false) as (F & _). rewrite F. destruct x; exact Hs.
+  - destruct x as [es er pc pk hs]. destruct e; cbn in *.
+    + destruct er as [[]|]; try discriminate; inversion H; subst; (split; [reflexivity|exact Hs]).
+    + destruct es as [[]|]; try discriminate; inversion H; subst; (split; [reflexivity|exact Hs]).
+  - destruct x as [es er pc pk hs]. cbn in *. destruct es as [[]|]; try discriminate; inversion H; subst; (split; [reflexivity|exact Hs]).
+  - destruct x as [es er pc pk hs]. cbn in *. destruct er as [[]|]; try discriminate; inversion H; subst; (split; [reflexivity|exact Hs]).
+Qed.
+
+Lemma cdrain_ins_pclose d : forall x x' s p,
+  cdrain x d = ROk x' -> k_pclose x !! s = None ->
+  cdrain (x <| k_pclose ::= <[s := p]> |>) d = ROk (x' <| k_pclose ::= <[s := p]> |>) /\ k_pclose x' !! s = None.
+Proof.
+  induction d as [|m d IH]; intros x x' s p H Hs; cbn [cdrain] in *.
+  - inversion H; subst. split; [reflexivity|exact Hs].
+  - destruct (crecv fl x m) as [x1| |] eqn:E; try discriminate.
+    destruct (crecv_ins_pclose _ _ _ s p E Hs) as [E' Hs']. rewrite E'. apply IH; assumption.
+Qed.
+
+Lemma crecv_ins_pclaim x m x' s p :
+  crecv fl x m = ROk x' -> k_pclaim x !! s = None ->
+  crecv fl (x <| k_pclaim ::= <[s := p]> |>) m = ROk (x' <| k_pclaim ::= <[s := p]> |>) /\ k_pclaim x' !! s = None.
+Proof.
+  intros H Hs. destruct m; cbn in H; try discriminate.
+  - destruct x as [es er pc pk hs]. cbn in *.
+    destruct (pc !! serial) as [[e claimed]|] eqn:E; cbn in H |- *; [|discriminate].
+    destruct claimed; cbn in H |- *.
+    + destruct e; cbn in H |- *.
+      * destruct es; cbn in H |- *; [|destruct (fl_close_asserts fl); [discriminate|]]; inversion H; subst; (split; [reflexivity|exact Hs]).
+      * destruct er; cbn in H |- *; [|destruct (fl_close_asserts fl); [discriminate|]]; inversion H; subst; (split; [reflexivity|exact Hs]).
+    + inversion H; subst; (split; [reflexivity|exact Hs]).
+  - destruct x as [es er pc pk hs]. destruct e; cbn in *.
+    + destruct er as [[]|]; try discriminate; inversion H; subst; (split; [reflexivity|exact Hs]).
+    + destruct es as [[]|]; try discriminate; inversion H; subst; (split; [reflexivity|exact Hs]).
+  - destruct (k_pclaim x !! serial) as [[e hid0]|] eqn:E; cbn in H; [|discriminate].
+    assert (serial <> s) by (intros ->; congruence).
+    assert (Hl : k_pclaim (x <| k_pclaim ::= <[s := p]> |>) !! serial = Some (e, hid0)).
+    { destruct x as [es er pc pk hs]. cbn in *. rewrite lookup_insert_ne by congruence. exact E. }
+    cbn. cbn in Hl. rewrite Hl. cbn.
+    assert (Hdel : forall x1 ok, k_pclaim x1 = delete serial (k_pclaim x) -> k_pclaim (deliver x1 hid0 ok) !! s = None).
+    { intros x1 ok Hx1. destruct (deliver_fields x1 hid0 ok) as (_ & F & _). rewrite F, Hx1.
+      rewrite lookup_delete_ne by congruence. exact Hs. }
+    assert (Hcomm : forall (y : ccore), (y <| k_pclaim ::= <[s := p]> |> <| k_pclaim ::= delete serial |>)
+                                        = (y <| k_pclaim ::= delete serial |> <| k_pclaim ::= <[s := p]> |>)).
+    { intros [es er pc pk hs]. unfold set; cbn. f_equal. apply delete_insert_ne. congruence. }
+    destruct e, r; cbn in H |- *; try discriminate.
+    + destruct (k_es x) eqn:Ee; [discriminate|].
+      inversion H; subst x'. split; [|apply Hdel; destruct x; reflexivity].
+      rewrite <- deliver_pclaim. f_equal. f_equal. destruct x; unfold set; cbn. f_equal. apply delete_insert_ne. congruence.
+    + inversion H; subst x'. split; [|apply Hdel; destruct x; reflexivity].
+      rewrite <- deliver_pclaim. f_equal. f_equal. apply Hcomm.
+    + inversion H; subst x'. split; [|apply Hdel; destruct x; reflexivity].
+      rewrite <- deliver_pclaim. f_equal. f_equal. apply Hcomm.
+    + destruct (k_er x) eqn:Ee; [discriminate|].
+      inversion H; subst x'. split; [|apply Hdel; destruct x; reflexivity].
+      rewrite <- deliver_pclaim. f_equal. f_equal. destruct x; unfold set; cbn. f_equal. apply delete_insert_ne. congruence.
+    + inversion H; subst x'. split; [|apply Hdel; destruct x; reflexivity].
+      rewrite <- deliver_pclaim. f_equal. f_equal. apply Hcomm.
+    + inversion H; subst x'. split; [|apply Hdel; destruct x; reflexivity].
+      rewrite <- deliver_pclaim. f_equal. f_equal. apply Hcomm.
+  - destruct x as [es er pc pk hs]. destruct e; cbn in *.
+    + destruct er as [[]|]; try discriminate; inversion H; subst; (split; [reflexivity|exact Hs]).
+    + destruct es as [[]|]; try discriminate; inversion H; subst; (split; [reflexivity|exact Hs]).
+  - destruct x as [es er pc pk hs]. cbn in *. destruct es as [[]|]; try discriminate; inversion H; subst; (split; [reflexivity|exact Hs]).
+  - destruct x as [es er pc pk hs]. cbn in *. destruct er as [[]|]; try discriminate; inversion H; subst; (split; [reflexivity|exact Hs]).
+Qed.
+
+Lemma cdrain_ins_pclaim d : forall x x' s p,
+  cdrain x d = ROk x' -> k_pclaim x !! s = None ->
+  cdrain (x <| k_pclaim ::= <[s := p]> |>) d = ROk (x' <| k_pclaim ::= <[s := p]> |>) /\ k_pclaim x' !! s = None.
+Proof.
+  induction d as [|m d IH]; intros x x' s p H Hs; cbn [cdrain] in *.
+  - inversion H; subst. split; [reflexivity|exact Hs].
+  - destruct (crecv fl x m) as [x1| |] eqn:E; try discriminate.
+    destruct (crecv_ins_pclaim _ _ _ s p E Hs) as [E' Hs']. rewrite E'. apply IH; assumption.
+Qed.
+
+(* ---------------------------------------------------------------- what consuming never does *)
+Definition sub_core (x x' : ccore) : Prop :=
+  (forall s, is_Some (k_pclose x' !! s) -> is_Some (k_pclose x !! s)) /\
+  (forall s, is_Some (k_pclaim x' !! s) -> is_Some (k_pclaim x !! s)) /\
+  (forall hid, is_Some (k_handles x' !! hid) <-> is_Some (k_handles x !! hid)) /\
+  (forall hid h, k_handles x !! hid = Some h -> ~ claiming (Some h) -> k_handles x' !! hid = Some h).
+
+Lemma sub_core_refl x : sub_core x x.
+Proof. repeat split; auto. Qed.
+
+Lemma sub_core_trans x1 x2 x3 : sub_core x1 x2 -> sub_core x2 x3 -> sub_core x1 x3.
+Proof.
+  intros (A1 & A2 & A3 & A4) (B1 & B2 & B3 & B4). repeat split; auto.
+  - intros H. apply A3, B3. exact H.
+  - intros H. apply B3, A3. exact H.
+Qed.
+
+Lemma deliver_sub x hid ok : sub_core x (deliver x hid ok).
+Proof.
+  destruct (deliver_fields x hid ok) as (F1 & F2 & _). unfold sub_core. rewrite F1, F2.
+  split; [auto|]. split; [auto|]. unfold deliver.
+  destruct (k_handles x !! hid) as [[e [| | |]]|] eqn:E; try (split; [tauto|auto]).
+  assert (Hk : k_handles (x <| k_handles ::= <[hid:={| h_end := e; h_kind := HResult ok |}]> |>)
+               = <[hid:={| h_end := e; h_kind := HResult ok |}]> (k_handles x)) by (destruct x; reflexivity).
+  rewrite Hk. split.
+  - intros h. destruct (decide (h = hid)) as [->|Hne].
+    + rewrite lookup_insert, E. split; eauto.
+    + rewrite lookup_insert_ne by congruence. tauto.
+  - intros h h0 Hh Hnc'. destruct (decide (h = hid)) as [->|Hne].
+    + rewrite E in Hh. inversion Hh; subst. exfalso. apply Hnc'. eexists. reflexivity.
+    + rewrite lookup_insert_ne by congruence. exact Hh.
+Qed.
+
+Lemma crecv_sub x m x' : crecv fl x m = ROk x' -> sub_core x x'.
+Proof.
+  intros H. destruct m; cbn in H; try discriminate.
+  - destruct (k_pclose x !! serial) as [[e claimed]|] eqn:E; cbn in H; [|discriminate].
+    assert (Hd : sub_core x (x <| k_pclose ::= delete serial |>)).
+    { destruct x as [es er pc pk hs]. unfold sub_core; cbn. split; [|repeat split; auto].
+      intros s [v Hv]. apply lookup_delete_Some in Hv. destruct Hv. eauto. }
+    destruct claimed; cbn in H.
+    + destruct (ent x e); [|destruct (fl_close_asserts fl); [discriminate|]]; inversion H; subst; [|exact Hd].
+      destruct x as [es er pc pk hs], e; exact Hd.
+    + inversion H; subst. exact Hd.
+  - destruct (ent x (other_end e)) as [[]|]; try discriminate; inversion H; subst;
+      destruct x as [es er pc pk hs], e; apply sub_core_refl.
+  - destruct (k_pclaim x !! serial) as [[e hid0]|] eqn:E; cbn in H; [|discriminate].
+    assert (Hd : sub_core x (x <| k_pclaim ::= delete serial |>)).
+    { destruct x as [es er pc pk hs]. unfold sub_core; cbn. split; [auto|]. split; [|repeat split; auto].
+      intros s [v Hv]. apply lookup_delete_Some in Hv. destruct Hv. eauto. }
+    assert (Hd' : forall st, sub_core x (set_ent (x <| k_pclaim ::= delete serial |>) e st)).
+    { intros st. destruct x as [es er pc pk hs], e; exact Hd. }
+    destruct e, r; cbn in H; try discriminate.
+    + destruct (k_es x); [discriminate|]. inversion H; subst. eapply sub_core_trans; [apply (Hd' (Some EEstablished))|apply deliver_sub].
+    + inversion H; subst. eapply sub_core_trans; [exact Hd|apply deliver_sub].
+    + inversion H; subst. eapply sub_core_trans; [exact Hd|apply deliver_sub].
+    + destruct (k_er x); [discriminate|]. inversion H; subst. eapply sub_core_trans; [apply (Hd' (Some EEstablished))|apply deliver_sub].
+    + inversion H; subst. eapply sub_core_trans; [exact Hd|apply deliver_sub].
+    + inversion H; subst. eapply sub_core_trans; [exact Hd|apply deliver_sub].
+  - destruct (ent x (other_end (end_of_cap e))) as [[]|]; try discriminate; inversion H; subst;
+      destruct x as [es er pc pk hs], e; apply sub_core_refl.
+  - destruct (k_es x) as [[]|]; try discriminate; inversion H; subst; apply sub_core_refl.
+  - destruct (k_er x) as [[]|]; try discriminate; inversion H; subst; apply sub_core_refl.
+Qed.
+
+Lemma cdrain_sub d : forall x x', cdrain x d = ROk x' -> sub_core x x'.
+Proof.
+  induction d as [|m d IH]; intros x x' H; cbn [cdrain] in H.
+  - inversion H; subst. apply sub_core_refl.
+  - destruct (crecv fl x m) as [x1| |] eqn:E; try discriminate.
+    eapply sub_core_trans; [eapply crecv_sub; exact E|apply IH; exact H].
+Qed.
+
+(* a handle whose claim is not running looks the same before and after draining *)
+Lemma drained_handle x z hid :
+  sub_core x z -> ~ claiming (k_handles x !! hid) -> k_handles z !! hid = k_handles x !! hid.
+Proof.
+  intros (_ & _ & S3 & S4) Hn. destruct (k_handles x !! hid) as [h|] eqn:E.
+  - apply S4; [exact E|exact Hn].
+  - destruct (k_handles z !! hid) eqn:E'; [|reflexivity].
+    assert (is_Some (k_handles x !! hid)) by (apply S3; eauto). rewrite E in H. destruct H. discriminate.
+Qed.
+
 End ChanEnds.
